@@ -25,7 +25,8 @@ RULE = ("random signatures (0-3 positional-or-keyword parameters, 0-2 keyword-on
         "observed to share one result and >=1 near-miss was observed to run the body again"
         '; presentations include keyword partials completed by position'
         '; rounds 10-11: refused calls in front of families, the keys of the case computed again by four threads at once'
-        '; round 12: strings with a backslash and the text JSON writes with that escape')
+        '; round 12: strings with a backslash and the text JSON writes with that escape'
+        '; round 13: every function defined again in the running process with another parameter list')
 ASSUMPTIONS = ["the canonical form defines value equality: floats by repr, datetimes by fields + offset",
                "parameters left to their defaults are not bound: f(1) and f(1, y=<default>) are different keys",
                "FunctionReference arguments are encoded with the fields qualifiedName, partialArgs (null when empty), "
